@@ -1,6 +1,5 @@
 package vsim
 
-
 import (
 	"os"
 	"sort"
@@ -15,7 +14,7 @@ import (
 // are read back from the detector's log after every run.
 
 // raceMix lists the scenario families run under the detector.
-var raceMix = []string{"C04", "C04", "C02", "C06", "C06", "C07", "C08", "C05", "C18", "C11", "C02", "C07"}
+var raceMix = []string{"C04", "C04", "C02", "C06", "C06", "C07", "C08", "C05", "C18", "C11", "C02", "C07", "C20"}
 
 var raceLogOff int64
 
